@@ -40,10 +40,12 @@ BOUNDS = {"quick": dict(rows="3-4 daily rows / 48 hourly rows", histories="2 pre
 STUBS = ["_fit/_adaptive_fit/_predict of the gate cases as in C04", "SufficiencyCriteria._check_extreme_values -> no-op",
          "pandas.core.nanops._ensure_numeric passes symbolic reals through (billing_df groupby mean on an object column)"]
 MODELS_USED = ["symreal ExtensionArray"]
-ASSUMPTIONS = ["hourly model state (sklearn scalers, ElasticNet, temporal-cluster table) and hourly data classes are outside the claim: they cannot carry symbolic values",
-               "call histories longer than two calls and interleaved fits are outside the claim"]
+ASSUMPTIONS = ["hourly model state (sklearn scalers, ElasticNet, temporal-cluster table) is outside the claim: it cannot carry symbolic values",
+               "hourly data classes: only the structural variants (columns present, role, zone, electricity flag) are quantified, on one concrete 4-day frame (hourly-data/ctor)",
+               "call histories longer than two predict calls, and interleavings beyond fit(A) [predict(A)] fit(B) (metrics concrete), are outside the claim"]
 EXPECTED_REGIMES = ["usage exactly 0 on electricity data", "poor fit appended to the model", "second predict after a different dataset",
-                    "temperature handed over in another timezone", "columns already carry the conventional names"]
+                    "temperature handed over in another timezone", "columns already carry the conventional names", "hourly reporting data without a usage column",
+                    "fit of another meter between serialisations of one model"]
 
 
 def ENCODED():
@@ -56,7 +58,7 @@ def ENCODED():
 def cases(tier, seed):
     out = [f"data/{k}/{e}" for k in ("daily", "hourly") for e in ("elec", "gas")] + ["predict/frame", "predict/history", "predict/billing-agg"]
     out += [f"gate/{f}" for f in ("daily", "billing", "hourly")] + ["gate/hourly-predict"]
-    out += [f"series/{fam}/{role}" for fam in ("daily", "billing") for role in ("baseline", "reporting")] + ["accessor/billing_df"]
+    out += [f"series/{fam}/{role}" for fam in ("daily", "billing") for role in ("baseline", "reporting")] + ["accessor/billing_df", "hourly-data/ctor", "interleave/daily", "interleave/billing"]
     return out
 
 
@@ -322,6 +324,135 @@ def run_accessor(case):
     case.sample(dict(accessor="billing_df", paths=len(paths)))
 
 
+# ------------------------------------------------------------------ hourly data classes (values concrete)
+
+HOURLY_COLS = [["temperature"], ["temperature", "ghi"], ["temperature", "observed"], ["temperature", "observed", "ghi"]]
+
+
+def hourly_scenario(role, cols, zone, elec):
+    """real HourlyBaselineData / HourlyReportingData constructor on a concrete 4-day frame (zero, NaN and DST day included)"""
+    import logging
+    logging.disable(logging.CRITICAL)
+    import opendsm.eemeter.models.hourly.data as hd
+    idx = pd.date_range("2021-03-12", periods=96, freq="h", tz=zone)
+    rng = np.random.default_rng(7)
+    df = pd.DataFrame({c: rng.normal(50, 10, len(idx)) for c in cols}, index=idx)
+    if "observed" in cols:
+        df.iloc[5, df.columns.get_loc("observed")] = 0.0
+        df.iloc[7, df.columns.get_loc("observed")] = np.nan
+    df.iloc[9, df.columns.get_loc("temperature")] = np.nan
+    before = df.copy(deep=True)
+    cls = hd.HourlyBaselineData if role == "baseline" else hd.HourlyReportingData
+    pr = []
+    try:
+        d = cls(df, is_electricity_data=elec)
+    except ValueError:
+        d = None  # e.g. baseline data without usage: a refusal must leave the caller's frame intact as well
+    if list(df.columns) != list(before.columns) or not df.equals(before) or str(df.index.tz) != str(before.index.tz):
+        pr.append(f"{cls.__name__} changed the caller's frame: columns {list(before.columns)} -> {list(df.columns)}")
+    if d is not None:
+        a = d.df
+        keep = a.copy(deep=True)
+        a.iloc[0, a.columns.get_loc("temperature")] = 12345.0
+        if not d.df.equals(keep):
+            pr.append(f"{cls.__name__}.df is not an independent copy")
+    return pr
+
+
+def replay_hourly_data(inp):
+    pr = hourly_scenario(inp["role"], inp["cols"], inp["zone"], inp["elec"])
+    return bool(pr), "; ".join(pr)
+
+
+def run_hourly_data(case):
+    """the hourly data classes cannot carry symbolic values (autocorrelation interpolation); the structural variants
+    (columns present, role, zone, electricity flag) are solver-chosen forks, the values are concrete"""
+    case.inputs = []
+
+    def run():
+        cfg = dict(role=F.choose("role", ["baseline", "reporting"]), cols=F.choose("cols", HOURLY_COLS), zone=F.choose("zone", ["US/Pacific", "UTC"]),
+                   elec=F.choose("elec", [True, False]))
+        return cfg, hourly_scenario(**cfg)
+
+    paths = case.explore(run)
+    for p in paths:
+        if p.outcome != "ret":
+            case.rep["harness_errors"].append(f"hourly data class raised {p.value!r}")
+            continue
+        cfg, pr = p.value
+        rp = ("hourly-data", (lambda c: lambda mdl: dict(c))(cfg))
+        case.prove(p, not pr, "the hourly data classes never modify the caller's frame and hand out independent copies", replay=rp)
+        case.regime("hourly reporting data without a usage column", cfg["role"] == "reporting" and "observed" not in cfg["cols"])
+    case.sample(dict(variants=len(paths)))
+
+
+# ------------------------------------------------------------------ interleaved fits of other meters
+
+def interleave_scenario(fam, poor_a, poor_b, predict_between):
+    """model A is fit and serialised; another model object B is fit on another meter (other metrics); A must still
+    serialise to the same document and report the same error metrics.  fit() runs through the real tail of _fit
+    (everything numerical before it stubbed on the instance, as in C04's persistfit)"""
+    import types as _t
+    from opendsm.eemeter.models.daily.parameters import ModelCoefficients
+
+    def fitted(metrics, intercept):
+        Model = c04.FAM[fam][0]
+        m = Model()
+        data = c04.pick_data(fam, "baseline", 0, "US/Pacific")
+        m._initialize_data = lambda md: (md, None)
+        m._combinations = lambda: ["fw-su_sh_wi"]
+        m._components = lambda: ["fw-su_sh_wi"]
+        m._fit_components = lambda: {}
+        m._get_error_metrics = lambda combo: metrics
+        m._best_combination = lambda print_out=False: "fw-su_sh_wi"
+        sub = _t.SimpleNamespace(T_min=0.0, T_max=100.0, T_min_seg=5.0, T_max_seg=95.0, f_unc=1.0,
+                                 named_coeffs=ModelCoefficients(model_type="tidd", intercept=intercept))
+        m._final_fit = lambda combo: {"fw-su_sh_wi": sub}
+        m.fit(data, ignore_disqualification=True)
+        return m
+    a = fitted((0.11, 0.12, 0.13, 2.0 if poor_a else 0.14, 0.15), 10.0)
+    doc_a, err_a, dq_a = json.dumps(a.to_dict(), sort_keys=True, default=str), dict(a.error), [w.qualified_name for w in a.disqualification]
+    if predict_between:
+        idx = pd.date_range("2021-01-01", periods=3, freq="D", tz="US/Pacific")
+        a.__dict__.pop("_initialize_data", None)  # the fit-time stand-in; predict uses the real method
+        a._predict(pd.DataFrame({"temperature": [40.0, 50.0, 60.0]}, index=idx))
+    b = fitted((1.11, 1.12, 1.13, 3.0 if poor_b else 0.24, 1.15), 20.0)
+    pr = []
+    if json.dumps(a.to_dict(), sort_keys=True, default=str) != doc_a:
+        pr.append("model A serialises differently after another model object was fit")
+    if dict(a.error) != err_a:
+        pr.append(f"model A reports error metrics {dict(a.error)} after model B was fit (before: {err_a})")
+    if [w.qualified_name for w in a.disqualification] != dq_a:
+        pr.append("model A's disqualifications changed after model B was fit")
+    if a.error is b.error or a.params is b.params:
+        pr.append("two model objects share their error/parameter objects")
+    return pr
+
+
+def replay_interleave(inp):
+    pr = interleave_scenario(inp["fam"], inp["poor_a"], inp["poor_b"], inp["predict_between"])
+    return bool(pr), "; ".join(pr)
+
+
+def run_interleave(case, fam):
+    case.inputs = []
+
+    def run():
+        cfg = dict(fam=fam, poor_a=F.choose("poor_a", [False, True]), poor_b=F.choose("poor_b", [False, True]), predict_between=F.choose("predict_between", [False, True]))
+        return cfg, interleave_scenario(**cfg)
+
+    paths = case.explore(run)
+    for p in paths:
+        if p.outcome != "ret":
+            case.rep["harness_errors"].append(f"interleave scenario raised {p.value!r}")
+            continue
+        cfg, pr = p.value
+        rp = ("interleave", (lambda c: lambda mdl: dict(c))(cfg))
+        case.prove(p, not pr, "fitting another model object leaves a fitted model's document, metrics and disqualifications unchanged", replay=rp)
+        case.regime("fit of another meter between serialisations of one model")
+    case.sample(dict(family=fam, histories=len(paths)))
+
+
 # ------------------------------------------------------------------ predict
 
 def replay_predict(inp):
@@ -520,7 +651,7 @@ def run_hourly_predict(case):
     case.sample(dict(scenario="HourlyModel.fit then predict on GHI-carrying reporting data"))
 
 
-REPLAY = {"data": replay_data, "predict": replay_predict, "gate": replay_gate, "hp": replay_hp, "series": replay_series, "accessor": replay_accessor}
+REPLAY = {"data": replay_data, "predict": replay_predict, "gate": replay_gate, "hp": replay_hp, "series": replay_series, "accessor": replay_accessor, "hourly-data": replay_hourly_data, "interleave": replay_interleave}
 
 
 def run_case(case: Case, name: str):
@@ -531,6 +662,10 @@ def run_case(case: Case, name: str):
         return run_series(case, parts[1], parts[2])
     if parts[0] == "accessor":
         return run_accessor(case)
+    if parts[0] == "hourly-data":
+        return run_hourly_data(case)
+    if parts[0] == "interleave":
+        return run_interleave(case, parts[1])
     if parts[0] == "predict":
         if parts[1] == "billing-agg":
             return run_billing_agg(case)
